@@ -156,6 +156,10 @@ class ConstEval:
         base = self.try_ev(m, e.value, cls, env, default=NotConst)
         if isinstance(base, EnumMember):
           return base.value
+      if e.attr in ("numerator", "denominator"):
+        base = self.try_ev(m, e.value, cls, env, default=NotConst)
+        if isinstance(base, (int, Fraction)) and not isinstance(base, bool):
+          return getattr(base, e.attr)
       return self._resolved(m, e, cls, env)
     if isinstance(e, ast.Call):
       fn = dotted(e.func)
